@@ -253,9 +253,8 @@ static void run_concurrent(const vf::Args &args, Report &rep)
     struct Bad { const char *op = nullptr; uint64_t a[3], b[3]; } bad[T];
     uint64_t seeds[T];
     for (int t = 0; t < T; t++) seeds[t] = vf::mix64(args.seed, 0x09CC + args.shard * 131 + t);
-#pragma omp parallel num_threads(T)
-    {
-        int me = omp_get_thread_num() % T;
+    vf::team(T, [&](int me_) {
+        int me = me_;
         Rng q(seeds[me]);
         for (uint64_t t = 0; t < n; t++)
         {
@@ -287,7 +286,7 @@ static void run_concurrent(const vf::Args &args, Report &rep)
                 }
             }
         }
-    }
+    });
     for (int t = 0; t < T; t++)
         if (bad[t].op) rep.violation(std::string("C09:") + bad[t].op + ":concurrent-callers:wrong-value", J().str("op", bad[t].op).raw("a", j3(bad[t].a)).raw("b", j3(bad[t].b)).str("what", "8 threads calling the operation at the same time on their own operands").done());
     rep.evaluations += n * T;
